@@ -299,27 +299,27 @@ func runC18(p *load.Program, r *core.Report) {
 				if !isIf {
 					return
 				}
-				lk, ok := iff.Cond.(*ssa.Lookup)
-				if !ok || lk.CommaOk {
+				lk := lookupOfCond(iff.Cond)
+				if lk == nil {
 					return
 				}
 				if mt, okm := lk.X.Type().Underlying().(*types.Map); !okm || namedOf(mt.Key()) != "gen.PID" {
 					return
 				}
-				if _, miss, complete := boolEdges(lk); complete && len(miss) > 0 && edgesDominate(miss, sends[0]) {
+				if _, miss, complete := setTest(lk); complete && len(miss) > 0 && edgesDominate(miss, sends[0]) {
 					servedTests[in] = true
 				}
 			})
 			eachInstr(send, func(in ssa.Instruction) {
 				lk, ok := in.(*ssa.Lookup)
-				if !ok || lk.CommaOk {
+				if !ok {
 					return
 				}
 				mt, okm := lk.X.Type().Underlying().(*types.Map)
 				if !okm || namedOf(mt.Key()) != "gen.PID" {
 					return
 				}
-				hit, _, complete := boolEdges(lk)
+				hit, _, complete := setTest(lk)
 				if !complete {
 					return
 				}
@@ -805,6 +805,32 @@ var _ = load.Module
 // c18ServedOnce: V6 — the consumer list of an event holds a process once per RELATION: a process that
 // has a link and a monitor on the event is there twice. The local fan-out sends to a pid only behind
 // the miss edge of a lookup in a set of served pids, which it then enters.
+// setTest: the edges on which a key is found / not found in a set kept as a map — `m[k]` of a
+// map[K]bool used as a condition, or the comma-ok form `_, ok := m[k]`.
+func setTest(lk *ssa.Lookup) (hit, miss []Edge, complete bool) {
+	if !lk.CommaOk {
+		return boolEdges(lk)
+	}
+	okv := tupleExtract(lk, 1)
+	if okv == nil {
+		return nil, nil, false
+	}
+	return boolEdges(okv)
+}
+
+// lookupOfCond: the map lookup a branch condition tests (directly or through the comma-ok result).
+func lookupOfCond(c ssa.Value) *ssa.Lookup {
+	if lk, ok := c.(*ssa.Lookup); ok {
+		return lk
+	}
+	if ex, ok := c.(*ssa.Extract); ok && ex.Index == 1 {
+		if lk, ok := ex.Tuple.(*ssa.Lookup); ok && lk.CommaOk {
+			return lk
+		}
+	}
+	return nil
+}
+
 func c18ServedOnce(a *Anchors, r *core.Report, send *ssa.Function) {
 	rule := "C18.V6 publication-sent-once-per-process"
 	r.Floor(rule, 1)
@@ -826,7 +852,7 @@ func c18ServedOnce(a *Anchors, r *core.Report, send *ssa.Function) {
 		ok := false
 		eachInstr(send, func(in ssa.Instruction) {
 			lk, isLk := in.(*ssa.Lookup)
-			if !isLk || lk.CommaOk {
+			if !isLk {
 				return
 			}
 			if _, isMap := lk.X.Type().Underlying().(*types.Map); !isMap {
@@ -835,7 +861,7 @@ func c18ServedOnce(a *Anchors, r *core.Report, send *ssa.Function) {
 			if lk.Index != pid && resolveLocalCopy(lk.Index) != resolveLocalCopy(pid) {
 				return
 			}
-			_, miss, complete := boolEdges(lk)
+			_, miss, complete := setTest(lk)
 			if !complete || len(miss) == 0 || !edgesDominate(miss, s) {
 				return
 			}
